@@ -23,6 +23,20 @@ theorem flatRun_congr {w : Wiring} {devs devs' : DevSeq V} {t0 : SimTime} {n : N
     rw [heq (n + 1) (Nat.le_refl _)]
     exact ht
 
+/-- the oracle-derived device functions ignore their inputs, so they are extensional -/
+theorem devOf_ext (orc : Oracle) (st : SimSt) : DevExt (devOf orc st) := fun _ _ _ _ _ => rfl
+
+/-- `ObsEq` is transitive -/
+theorem obsEq_trans {Val : Type} [DecidableEq Val] :
+    ∀ {a b c : List (SimTime × List (Port × Val))}, ObsEq a b → ObsEq b c → ObsEq a c
+  | [], [], [], _, _ => trivial
+  | [], [], _ :: _, _, h => h.elim
+  | [], _ :: _, _, h, _ => h.elim
+  | _ :: _, [], _, h, _ => h.elim
+  | _ :: _, _ :: _, [], _, h => h.elim
+  | (_, _) :: _, (_, _) :: _, (_, _) :: _, h1, h2 =>
+    ⟨h1.1.trans h2.1, fun k => (h1.2.1 k).trans (h2.2.1 k), obsEq_trans h1.2.2 h2.2.2⟩
+
 theorem R.delWake {sim : SimSt} {fl : FlatSt V} (h : R sim fl) (cs : List Comp) :
     R (sim.delWake cs) { fl with wake := delWakeups fl.wake cs } := by
   refine ⟨h.comps, ?_, h.obs⟩
@@ -35,40 +49,41 @@ theorem R.delWake {sim : SimSt} {fl : FlatSt V} (h : R sim fl) (cs : List Comp) 
 theorem masterInitial_flat {S : Static} (hsys : S.systems = []) {L : Level} (hL : S.level "" = some L)
     {orc : Oracle} {fuel : Nat} {t0 : SimTime} {now : Int} {m : MasterSt} {tr : TickRec}
     (h : masterInitial S orc fuel t0 now = .ok (m, tr)) :
-    ∃ fl, FlatRun L.wiring (fun _ => devOf orc {}) t0 0 fl [t0] ∧ R m.sim fl ∧ tr.time = t0 := by
+    ∃ fl, FlatRun L.wiring (fun _ => devOf orc {}) t0 0 fl [t0] ∧ R m.sim fl ∧ tr.time = t0 ∧
+      ∀ k : Nat, DevExt ((fun _ => devOf orc {} : DevSeq V) k) := by
   obtain ⟨L', out, hL', ht⟩ := masterInitial_tick h
   rw [hL] at hL'; cases hL'
   obtain ⟨fl, hrun, hR⟩ := tickLevel_flat hsys hL R.empty ht
-  exact ⟨fl, .initial hrun, hR, (masterInitial_clock h).2.2.2.1⟩
+  exact ⟨fl, .initial hrun, hR, (masterInitial_clock h).2.2.2.1, fun _ => devOf_ext orc {}⟩
 
 /-- the callback ticks -/
 theorem masterRun_flat {S : Static} (hsys : S.systems = []) {L : Level} (hL : S.level "" = some L)
     {orc : Oracle} {fuel : Nat} (sp : Speed) {t0 : SimTime} {m2 : MasterSt} {ticks : List TickRec} :
     ∀ (steps nTicks : Nat) (m : MasterSt) (acc : List TickRec) (devs : DevSeq V) (n : Nat)
       (fl : FlatSt V) (times : List SimTime),
-      FlatRun L.wiring devs t0 n fl times → R m.sim fl → acc.length = n + 1 →
+      FlatRun L.wiring devs t0 n fl times → (∀ k, DevExt (devs k)) → R m.sim fl → acc.length = n + 1 →
       times = (acc.map (·.time)).reverse →
       masterRun S orc fuel sp steps nTicks m [] acc = .ok (m2, ticks) →
       ∃ (devs' : DevSeq V) (fl' : FlatSt V) (times' : List SimTime),
         FlatRun L.wiring devs' t0 (ticks.length - 1) fl' times' ∧ R m2.sim fl' ∧
-        times' = (ticks.map (·.time)).reverse := by
+        times' = (ticks.map (·.time)).reverse ∧ ∀ k, DevExt (devs' k) := by
   intro steps
   induction steps with
   | zero =>
-    intro nTicks m acc devs n fl times hrun hR hlen htimes h
+    intro nTicks m acc devs n fl times hrun hext hR hlen htimes h
     rw [masterRun] at h
     simp only [Except.ok.injEq, Prod.mk.injEq] at h
     obtain ⟨rfl, rfl⟩ := h
-    refine ⟨devs, fl, times, ?_, hR, htimes⟩
+    refine ⟨devs, fl, times, ?_, hR, htimes, hext⟩
     rw [hlen]; exact hrun
   | succ steps ih =>
-    intro nTicks m acc devs n fl times hrun hR hlen htimes h
+    intro nTicks m acc devs n fl times hrun hext hR hlen htimes h
     cases nTicks with
     | zero =>
       rw [masterRun.eq_2 _ _ _ _ _ _ _ _ (by simp)] at h
       simp only [Except.ok.injEq, Prod.mk.injEq] at h
       obtain ⟨rfl, rfl⟩ := h
-      refine ⟨devs, fl, times, ?_, hR, htimes⟩
+      refine ⟨devs, fl, times, ?_, hR, htimes, hext⟩
       rw [hlen]; exact hrun
     | succ nTicks =>
       rw [masterRun_no_stims] at h
@@ -79,7 +94,7 @@ theorem masterRun_flat {S : Static} (hsys : S.systems = []) {L : Level} (hL : S.
         | none =>
           simp only [Except.ok.injEq, Prod.mk.injEq] at h
           obtain ⟨rfl, rfl⟩ := h
-          refine ⟨devs, fl, times, ?_, hR, htimes⟩
+          refine ⟨devs, fl, times, ?_, hR, htimes, hext⟩
           rw [hlen]; exact hrun
         | some w =>
           simp only [] at h
@@ -95,7 +110,13 @@ theorem masterRun_flat {S : Static} (hsys : S.systems = []) {L : Level} (hL : S.
                 rw [if_neg (by omega)]
               · simp only [devs', if_true]
                 exact hrun2
-            refine ih nTicks _ _ devs' (n + 1) fl2 (w :: times) hrun' hR2 ?_ ?_ h
+            have hext' : ∀ k, DevExt (devs' k) := by
+              intro k
+              simp only [devs']
+              split
+              · exact devOf_ext _ _
+              · exact hext k
+            refine ih nTicks _ _ devs' (n + 1) fl2 (w :: times) hrun' hext' hR2 ?_ ?_ h
             · simp [hlen]
             · simp [htimes]
 
